@@ -177,7 +177,12 @@ impl Ctx {
         if p.mon.id != obj { self.error("C14", format!("operation {} got the payload of object {}", oid, p.mon.id)); }
         self.touch(oid, p);
         let occ = p.mon.occ.fetch_add(1, SeqCst) + 1;
-        if occ != 1 { self.error("C01", format!("operation {} started on object {} while {} other operation(s) in progress", oid, obj, occ - 1)); }
+        if occ != 1 {
+            self.error("C01", format!("operation {} started on object {} while {} other operation(s) in progress", oid, obj, occ - 1));
+            // a try_sync closure is one of the overlapping operations: it did not get the exclusive access it is promised (C09)
+            let t = { let ops = self.ops.lock().unwrap(); ops.iter().enumerate().find(|(i, r)| r.obj == obj && r.kind == 'T' && r.start != 0 && r.end == 0 && (*i == oid || ops[oid].kind != 'T' || *i != oid)).map(|(i, _)| i) };
+            if let Some(t) = t { self.error("C09", format!("the closure of try_sync {} ran on object {} while another operation was in progress (operation {} started with {} in progress)", t, obj, oid, occ - 1)); }
+        }
     }
     fn touch(&self, oid: usize, p: &mut Payload) {
         if p.mon.dead.load(SeqCst) || p.canary != 0xC0FFEE { self.error("C05", format!("operation {} touched object {} after it was freed", oid, p.mon.id)); }
